@@ -23,6 +23,9 @@ ASSUMPTIONS = [
     "asserts start); rx_valid and tx_valid are never asserted together (half-duplex bus)",
     "USB3 CRC modules: at most one of clear / advance_* is asserted per cycle (as in receiver.py, data.py, "
     "transmitter.py)",
+    "usb3-header-accept: a header packet is HPSTART followed by four data words (ctrl 0), possibly separated by cycles "
+    "with sink.valid low; packets may follow each other with no word in between; expected_sequence equals the packet's "
+    "sequence number while it is judged (sequence errors are C37's subject)",
 ]
 
 POLY5, POLY16_USB2, POLY16_USB3, POLY32 = 0x05, 0x8005, 0x100B, 0x04C11DB7
@@ -658,3 +661,141 @@ class Usb2DataAccept(_C02Receiver):
 
 
 SUBS.append(Usb2DataAccept())
+
+
+# ---------------------------------------------------------------------------------------------------------------
+# The same clause for the USB3 header CRC16 and the link-control-word CRC5: RawHeaderPacketReceiver is the consumer
+# of HeaderPacketCRC / compute_usb_crc5.  Trains of header packets (also back-to-back, also with sink.valid gaps)
+# are judged packet by packet: new_packet iff both check fields are the bit-serial CRCs of the packet's OWN words.
+HPSTART_WORD = (0xF7FBFBFB, 0xF)          # SHP SHP SHP EPF (K27.7 x3, K23.7), symbol 0 in bits 0..7
+
+
+def _le(words):
+    return struct.pack(f"<{len(words)}I", *words)
+
+
+class Usb3HeaderAccept(Sub):
+    name = "usb3-header-accept"
+    budget = {"quick": 1000, "thorough": 30000}
+    rule = ("RawHeaderPacketReceiver fed trains of 1..12 header packets (HPSTART + DW0..DW3) on its sink without reset: "
+            "0..3 words between packets (0 = back-to-back, half of the followers; idle words valid or not), sink.valid "
+            "gaps before any word of a packet, header words uniform / sparse / dense / equal to the previous packet's; "
+            "CRC16 field: correct (3 in 6), one bit off, random, the previous packet's field, or the CRC16 of "
+            "previous-DW0..2 + own-DW0..2 (what a CRC that was not re-initialised would expect); CRC5 field correct "
+            "(5 in 7), one bit off or random; expected_sequence always equals the packet's sequence number. Oracle: "
+            "between the DW3 of a packet and the DW3 of the next one new_packet strobes exactly once, with the packet's "
+            "own DW0..2 and link-control fields on `packet`, iff both fields equal the bit-serial CRC16 (0x100B, init "
+            "0xFFFF, reflected, inverted, over the 12 little-endian bytes) and CRC5 of that packet; otherwise never, "
+            "and a packet with correct fields never raises bad_packet. non-trivial = a back-to-back follower AND >= 1 "
+            "accepted AND >= 1 rejected packet")
+
+    def setup(self):
+        from luna.gateware.usb.usb3.link.receiver import RawHeaderPacketReceiver
+        d = RawHeaderPacketReceiver()
+        p = d.packet
+        self.h = CycleHarness(d, ins=dict(valid=d.sink.valid, data=d.sink.data, ctrl=d.sink.ctrl,
+                                          expseq=d.expected_sequence),
+                              outs=dict(new=d.new_packet, bad=d.bad_packet, badseq=d.bad_sequence, dw0=p.dw0, dw1=p.dw1,
+                                        dw2=p.dw2, seq=p.sequence_number, rsv=p.dw3_reserved, hub=p.hub_depth,
+                                        dl=p.delayed, df=p.deferred), domain="ss")
+
+    def strategy(self):
+        word = st.one_of(_word(), st.none())          # None = same word as in the previous packet
+        pkt = st.fixed_dictionaries(dict(
+            dw=st.tuples(word, word, word).map(list),
+            lcw=st.integers(0, 0x7FF),
+            c16=st.tuples(weighted([("good", 3), ("flip", 1), ("rand", 1), ("prev", 1), ("concat", 1)]),
+                          st.integers(0, 0xFFFF)).map(list),
+            c5=st.tuples(weighted([("good", 5), ("flip", 1), ("rand", 1)]), st.integers(0, 31)).map(list),
+            gap=weighted([(0, 5), (1, 2), (2, 1), (3, 1)]),
+            gap_valid=st.integers(0, 7),               # bit i: idle word i of the gap is presented with valid=1
+            stalls=st.lists(st.tuples(st.integers(1, 4), st.integers(1, 2)).map(list), max_size=2),
+        ))
+        return st.fixed_dictionaries(dict(pkts=long_lists(pkt, min_size=1, max_size=12, average=5),
+                                          lead=st.integers(0, 3)))
+
+    def run(self, case):
+        script = [dict(valid=0, data=0, ctrl=0, expseq=0)] * case["lead"]
+        pkts = []
+        prev_dw = [0, 0, 0]
+        prev_c16 = 0
+        for k, pk in enumerate(case["pkts"]):
+            dw = [prev_dw[i] if w is None else w for i, w in enumerate(pk["dw"])]
+            good16 = R.usb3_crc16(_le(dw))
+            how, arg = pk["c16"]
+            c16 = {"good": good16, "flip": good16 ^ (1 << (arg % 16)), "rand": arg, "prev": prev_c16,
+                   "concat": R.usb3_crc16(_le(prev_dw + dw))}[how]
+            lcw = pk["lcw"]
+            good5 = R.usb3_crc5(lcw)
+            how5, arg5 = pk["c5"]
+            c5 = {"good": good5, "flip": good5 ^ (1 << (arg5 % 5)), "rand": arg5}[how5]
+            dw3 = c16 | (lcw << 16) | (c5 << 27)
+            seq = lcw & 7
+            gap = pk["gap"] if k else 0
+            for i in range(gap):
+                script.append(dict(valid=(pk["gap_valid"] >> i) & 1, data=0, ctrl=0, expseq=seq))
+            stall = {}
+            for pos, n in pk["stalls"]:
+                stall[pos] = stall.get(pos, 0) + n
+            words = [HPSTART_WORD] + [(w, 0) for w in dw + [dw3]]
+            for i, (d, c) in enumerate(words):
+                for j in range(stall.get(i, 0)):
+                    script.append(dict(valid=0, data=(d ^ (0x9E3779B1 * (j + 1))) & M32, ctrl=0, expseq=seq))
+                script.append(dict(valid=1, data=d, ctrl=c, expseq=seq))
+            pkts.append(dict(k=k, dw=dw, dw3=dw3, lcw=lcw, seq=seq, end=len(script) - 1, gap=gap, b2b=bool(k) and gap == 0,
+                             ok=(c16 == good16 and c5 == good5), c16=c16, good16=good16, c5=c5, good5=good5))
+            prev_dw, prev_c16 = dw, c16
+        # after the last packet: idle words (the receiver judges the packet in the cycle after DW3)
+        script += [dict(valid=1, data=0, ctrl=0)] + [dict(valid=0, data=0, ctrl=0)] * 3
+        # the sequence number is compared in the cycle after DW3 (possibly the first word of the next packet): the
+        # expected number equals the packet's own from its HPSTART up to and including that cycle
+        for p in pkts:
+            script[p["end"] + 1] = dict(script[p["end"] + 1], expseq=p["seq"])
+            if "expseq" not in script[p["end"] + 2]:
+                script[p["end"] + 2] = dict(script[p["end"] + 2], expseq=p["seq"])
+        trace = self.h.run_script(script, tail=3)
+
+        for i, p in enumerate(pkts):
+            lo = p["end"] + 1
+            hi = pkts[i + 1]["end"] + 1 if i + 1 < len(pkts) else len(trace)
+            news = [t for t in range(lo, hi) if trace[t].new]
+            bads = [t for t in range(lo, hi) if trace[t].bad]
+            where = (f"packet {p['k']} of {len(pkts)} (DW0..3 = {[hex(w) for w in p['dw'] + [p['dw3']]]}, DW3 in cycle "
+                     f"{p['end']}, " + ("back-to-back after the previous packet" if p["b2b"] else
+                                        f"{p['gap']} words after the previous packet" if p["k"] else "first packet") + ")")
+            shape = "-back-to-back" if p["b2b"] else ""
+            if p["ok"]:
+                if len(news) != 1 or bads:
+                    return fail(f"{where}: CRC16 {p['c16']:#06x} and CRC5 {p['c5']:#04x} are CORRECT but new_packet "
+                                f"strobed in cycles {news} and bad_packet in {bads}",
+                                signature="good-header-not-accepted" + shape)
+                o = trace[news[0]]
+                got = (o.dw0, o.dw1, o.dw2, o.seq | (o.rsv << 3) | (o.hub << 6) | (o.dl << 9) | (o.df << 10))
+                exp = (*p["dw"], p["lcw"])
+                if got != exp:
+                    return fail(f"{where}: accepted, but packet output (dw0, dw1, dw2, link control bits) = "
+                                f"{[hex(x) for x in got]}, expected {[hex(x) for x in exp]}",
+                                signature="accepted-header-fields-wrong" + shape)
+            elif news:
+                which = ("CRC16 " + f"{p['c16']:#06x} (correct {p['good16']:#06x})" if p["c16"] != p["good16"] else "") + \
+                        (" CRC5 " + f"{p['c5']:#04x} (correct {p['good5']:#04x})" if p["c5"] != p["good5"] else "")
+                return fail(f"{where}: WRONG {which.strip()} but new_packet strobed in cycles {news}",
+                            signature="bad-header-accepted" + shape)
+        n_ok = sum(p["ok"] for p in pkts)
+        b2b = any(p["b2b"] for p in pkts)
+        labels = set()
+        if b2b:
+            labels.add("back-to-back")
+        if any(p["b2b"] and p["ok"] for p in pkts):
+            labels.add("good-back-to-back-follower")
+        if any(p["b2b"] and not p["ok"] for p in pkts):
+            labels.add("bad-back-to-back-follower")
+        for pk in case["pkts"]:
+            if pk["c16"][0] != "good":
+                labels.add("crc16-" + pk["c16"][0])
+            if pk["stalls"]:
+                labels.add("valid-gap-inside-packet")
+        return Result(ok=True, nontrivial=b2b and 0 < n_ok < len(pkts), labels=tuple(sorted(labels)))
+
+
+SUBS.append(Usb3HeaderAccept())
